@@ -369,6 +369,10 @@ func runWorker(known []knownFinding) {
 			}
 			h := fnv.New32a()
 			h.Write([]byte(v.Signature))
+			// (the build this binary belongs to is part of the name: two checks
+			// of one property running at once against different trees must not
+			// write each other's replay files)
+			h.Write([]byte(filepath.Base(filepath.Dir(os.Args[0]))))
 			file := filepath.Join(*fReplays, fmt.Sprintf("%s-%d-%08x.json", *fProp, *fSeed, h.Sum32()))
 			os.MkdirAll(*fReplays, 0755)
 			if err := min.Save(file); err != nil {
